@@ -1,5 +1,6 @@
 import errno
 import os
+import select
 import sys
 
 from tornado import ioloop
@@ -94,6 +95,35 @@ class Redirector(object):
         self._stop_one(fd)
         if fd in self.pipes:
             del self.pipes[fd]
+
+    @staticmethod
+    def _readable(fd):
+        if hasattr(select, 'poll'):
+            # (select() cannot take descriptors beyond FD_SETSIZE)
+            poller = select.poll()
+            poller.register(fd, select.POLLIN)
+            return bool(poller.poll(0))
+        return bool(select.select([fd], [], [], 0)[0])
+
+    def flush_redirections(self, process, limit=1 << 20):
+        """Hand over what the process has written and we have not read yet
+        (never blocks; at most `limit` bytes per pipe)."""
+        for name, pipe in self.get_process_pipes(process):
+            try:
+                fd = pipe.fileno()
+            except ValueError:
+                # the pipe was already closed
+                continue
+            if fd not in self._active:
+                continue
+            done = 0
+            while done < limit and self._readable(fd):
+                data = os.read(fd, self.buffer)
+                if len(data) == 0:
+                    break
+                done += len(data)
+                self.redirect[name]({'data': data, 'pid': process.pid,
+                                     'name': name})
 
     def remove_redirections(self, process):
         for _, pipe in self.get_process_pipes(process):
